@@ -479,7 +479,9 @@ def last_block_rules(fb, ctx):
             out.append(("last" if z["name"].startswith("last") else z["name"], z["ln"]))
         return out
     n = 0
-    for fn in (F + "::seal", F + "::verify_inner", F + "::last_block"):
+    # the functions that sign / check a seal (whoever calls the seal payload generator), plus the accessor used for requests and appends
+    targets = sorted({b_["path"] for b_ in fb.bodies.values() if b_["crate"] == "biscuit_auth" and b_["kind"] != "Closure" and not b_.get("exp") and mirq.calls_matching(fb, b_, r"crypto::generate_seal_signature_payload_v0$")} | {F + "::last_block"})
+    for fn in targets:
         b = fb.body(fn)
         sel = selectors(fb.hir_of(b))
         n += len(sel)
